@@ -25,6 +25,11 @@
                    (emptySharedAltDs 550-586; used by opStart and by the teardown)
      EStartDone    ... its Sync; resetInProgress = true
      EStartFail    prepareAltDs returned an error: no reset in progress
+     EStartCancel  the caller's ctx is cancelled while the worker runs opStart:
+                   ResetCids returns (746-748) WITHOUT having registered the deferred
+                   opCleanup; the worker finishes opStart (EDel, EStartDone) and then
+                   blocks forever sending the response on the unbuffered channel
+                   nobody reads any more: phase PWedged, no event is enabled.
      ECleanup      opCleanup(success=true) is received: final drainBuf (EAltWrite),
      ECleanSync    altDs.Sync (durability boundary, 646),
      EFlip         the swap of s.ds/s.altDs, size = altSize, marker Put (654-668),
@@ -40,8 +45,9 @@
      EKey          one cid received from keysChan (appended to the local batch)
      EAltWrite c   one committed batch in altDs: altPutBlind before phase B,
                    altPutChecked (Has, altSize += added) after it.  [c] is the
-                   chunk handed to altPut*; it is taken from the local batch /
-                   already drained keys [r_loc], after a takeBuf if it is not there.
+                   chunk handed to altPut*: the local batch [r_loc], or the next
+                   keys of those taken from the buffer [r_drn] (after a takeBuf if
+                   they are not there yet).
      EAltSync      altDs.Sync at the end of phase A (815)
      ECount        phase B: altSize = refreshSize(altDs)
    Abstractions: batching thresholds, the ticker and the order of drains are
@@ -83,7 +89,7 @@ Record rst := {
   r_active : bool; r_size : Z; r_alt : Z;
   r_rip : bool; r_buf : list mhk;
   r_wk : option (list mhk * option (list mhk));   (* Put in flight: keys, result once committed *)
-  r_ph : phase; r_todo : list mhk; r_loc : list mhk; r_counted : bool;
+  r_ph : phase; r_todo : list mhk; r_loc : list mhk; r_drn : list mhk; r_counted : bool;
   r_closed : bool;
   (* ghost *)
   r_a0 : bool; r_old : list mhk; r_new : list mhk; r_acked : list mhk; r_flipped : bool }.
@@ -109,7 +115,7 @@ Definition ropen (j : list gentry) : rst :=
             end in
   {| r_j := j2; r_synced := length j; r_active := a; r_size := sz; r_alt := 0;
      r_rip := false; r_buf := []; r_wk := None;
-     r_ph := PIdle; r_todo := []; r_loc := []; r_counted := false; r_closed := false;
+     r_ph := PIdle; r_todo := []; r_loc := []; r_drn := []; r_counted := false; r_closed := false;
      r_a0 := a; r_old := keys_of st; r_new := []; r_acked := []; r_flipped := false |}.
 
 (* what a reopened keystore holds and reports *)
@@ -125,14 +131,11 @@ Fixpoint strip_prefix (c l : list mhk) : option (list mhk) :=
   | x :: c', y :: l' => if mhk_eqb x y then strip_prefix c' l' else None
   | _ :: _, [] => None
   end.
-(* remove the first occurrence of [c] as a contiguous segment of [l] *)
-Fixpoint remove_seg (c l : list mhk) : option (list mhk) :=
-  match strip_prefix c l with
-  | Some r => Some r
-  | None => match l with
-            | [] => None
-            | y :: l' => match remove_seg c l' with Some r => Some (y :: r) | None => None end
-            end
+Fixpoint list_mhk_eqb (a b : list mhk) : bool :=
+  match a, b with
+  | [], [] => true
+  | x :: a', y :: b' => mhk_eqb x y && list_mhk_eqb a' b'
+  | _, _ => false
   end.
 
 Definition blind_ops (pb : nat) (c : list mhk) : batch := map (fun k => WPut (dkey pb k) (VKey k)) c.
@@ -152,12 +155,12 @@ Inductive revent :=
 Definition upd_j (s : rst) (j : list gentry) (synced : nat) : rst :=
   {| r_j := j; r_synced := synced; r_active := r_active s; r_size := r_size s; r_alt := r_alt s;
      r_rip := r_rip s; r_buf := r_buf s; r_wk := r_wk s; r_ph := r_ph s; r_todo := r_todo s;
-     r_loc := r_loc s; r_counted := r_counted s; r_closed := r_closed s;
+     r_loc := r_loc s; r_drn := r_drn s; r_counted := r_counted s; r_closed := r_closed s;
      r_a0 := r_a0 s; r_old := r_old s; r_new := r_new s; r_acked := r_acked s; r_flipped := r_flipped s |}.
 Definition upd_ph (s : rst) (p : phase) : rst :=
   {| r_j := r_j s; r_synced := r_synced s; r_active := r_active s; r_size := r_size s; r_alt := r_alt s;
      r_rip := r_rip s; r_buf := r_buf s; r_wk := r_wk s; r_ph := p; r_todo := r_todo s;
-     r_loc := r_loc s; r_counted := r_counted s; r_closed := r_closed s;
+     r_loc := r_loc s; r_drn := r_drn s; r_counted := r_counted s; r_closed := r_closed s;
      r_a0 := r_a0 s; r_old := r_old s; r_new := r_new s; r_acked := r_acked s; r_flipped := r_flipped s |}.
 
 Definition worker_free (s : rst) : bool :=
@@ -171,7 +174,7 @@ Definition flip (s : rst) (wrote : bool) : rst :=
   {| r_j := if wrote then r_j s ++ [GMark (mark_of a)] else r_j s; r_synced := r_synced s;
      r_active := a; r_size := r_alt s; r_alt := r_alt s;
      r_rip := r_rip s; r_buf := r_buf s; r_wk := r_wk s; r_ph := PClean2; r_todo := r_todo s;
-     r_loc := r_loc s; r_counted := r_counted s; r_closed := r_closed s;
+     r_loc := r_loc s; r_drn := r_drn s; r_counted := r_counted s; r_closed := r_closed s;
      r_a0 := r_a0 s; r_old := r_old s; r_new := r_new s; r_acked := r_acked s; r_flipped := true |}.
 
 Definition rstep (pb : nat) (s : rst) (e : revent) : option rst :=
@@ -187,7 +190,7 @@ Definition rstep (pb : nat) (s : rst) (e : revent) : option rst :=
         Some {| r_j := r_j s; r_synced := r_synced s; r_active := r_active s; r_size := r_size s; r_alt := r_alt s;
                 r_rip := r_rip s; r_buf := if r_rip s then r_buf s ++ ks else r_buf s;
                 r_wk := Some (ks, None); r_ph := r_ph s; r_todo := r_todo s;
-                r_loc := r_loc s; r_counted := r_counted s; r_closed := false;
+                r_loc := r_loc s; r_drn := r_drn s; r_counted := r_counted s; r_closed := false;
                 r_a0 := r_a0 s; r_old := r_old s; r_new := r_new s; r_acked := r_acked s; r_flipped := r_flipped s |}
       else None
   | EPutCommit =>
@@ -198,7 +201,7 @@ Definition rstep (pb : nat) (s : rst) (e : revent) : option rst :=
               Some {| r_j := gappend (r_j s) (r_active s) b; r_synced := r_synced s; r_active := r_active s;
                       r_size := r_size s + Z.of_nat (length nw); r_alt := r_alt s;
                       r_rip := r_rip s; r_buf := r_buf s; r_wk := Some (ks, Some nw); r_ph := r_ph s;
-                      r_todo := r_todo s; r_loc := r_loc s; r_counted := r_counted s; r_closed := false;
+                      r_todo := r_todo s; r_loc := r_loc s; r_drn := r_drn s; r_counted := r_counted s; r_closed := false;
                       r_a0 := r_a0 s; r_old := r_old s; r_new := r_new s; r_acked := r_acked s;
                       r_flipped := r_flipped s |}
           | None => None
@@ -210,7 +213,7 @@ Definition rstep (pb : nat) (s : rst) (e : revent) : option rst :=
       | Some (ks, Some nw) =>
           Some {| r_j := r_j s; r_synced := length (r_j s); r_active := r_active s; r_size := r_size s;
                   r_alt := r_alt s; r_rip := r_rip s; r_buf := r_buf s; r_wk := None; r_ph := r_ph s;
-                  r_todo := r_todo s; r_loc := r_loc s; r_counted := r_counted s; r_closed := false;
+                  r_todo := r_todo s; r_loc := r_loc s; r_drn := r_drn s; r_counted := r_counted s; r_closed := false;
                   r_a0 := r_a0 s; r_old := r_old s; r_new := r_new s; r_acked := r_acked s ++ ks;
                   r_flipped := r_flipped s |}
       | _ => None
@@ -220,7 +223,7 @@ Definition rstep (pb : nat) (s : rst) (e : revent) : option rst :=
         Some {| r_j := r_j s ++ [GSlot (r_active s) [WPut KSize (VSize (r_size s))]]; r_synced := r_synced s;
                 r_active := r_active s; r_size := r_size s; r_alt := r_alt s;
                 r_rip := r_rip s; r_buf := r_buf s; r_wk := None; r_ph := r_ph s; r_todo := r_todo s;
-                r_loc := r_loc s; r_counted := r_counted s; r_closed := true;
+                r_loc := r_loc s; r_drn := r_drn s; r_counted := r_counted s; r_closed := true;
                 r_a0 := r_a0 s; r_old := r_old s; r_new := r_new s; r_acked := r_acked s; r_flipped := r_flipped s |}
       else None
   | ECloseSync => None
@@ -230,7 +233,7 @@ Definition rstep (pb : nat) (s : rst) (e : revent) : option rst :=
           if is_none (r_wk s) then
             Some {| r_j := r_j s; r_synced := r_synced s; r_active := r_active s; r_size := r_size s; r_alt := 0;
                     r_rip := false; r_buf := []; r_wk := None; r_ph := PStarting; r_todo := new;
-                    r_loc := []; r_counted := false; r_closed := false;
+                    r_loc := []; r_drn := []; r_counted := false; r_closed := false;
                     r_a0 := r_active s; r_old := r_old s ++ r_acked s; r_new := new; r_acked := [];
                     r_flipped := false |}
           else None
@@ -248,18 +251,16 @@ Definition rstep (pb : nat) (s : rst) (e : revent) : option rst :=
           if is_nil (alternate s) then
             Some {| r_j := r_j s; r_synced := length (r_j s); r_active := r_active s; r_size := r_size s;
                     r_alt := r_alt s; r_rip := true; r_buf := r_buf s; r_wk := r_wk s; r_ph := PFilling;
-                    r_todo := r_todo s; r_loc := r_loc s; r_counted := r_counted s; r_closed := false;
+                    r_todo := r_todo s; r_loc := r_loc s; r_drn := r_drn s; r_counted := r_counted s; r_closed := false;
                     r_a0 := r_a0 s; r_old := r_old s; r_new := r_new s; r_acked := r_acked s;
                     r_flipped := r_flipped s |}
           else None
-      | _ => None
-      end
       | PStartOrphan =>
           (* nobody receives the response any more: the worker blocks forever in
              `op.response <- nil` (629), with resetInProgress already set *)
           Some {| r_j := r_j s; r_synced := length (r_j s); r_active := r_active s; r_size := r_size s;
                   r_alt := r_alt s; r_rip := true; r_buf := r_buf s; r_wk := r_wk s; r_ph := PWedged;
-                  r_todo := r_todo s; r_loc := r_loc s; r_counted := r_counted s; r_closed := false;
+                  r_todo := r_todo s; r_loc := r_loc s; r_drn := r_drn s; r_counted := r_counted s; r_closed := false;
                   r_a0 := r_a0 s; r_old := r_old s; r_new := r_new s; r_acked := r_acked s;
                   r_flipped := r_flipped s |}
       | _ => None
@@ -273,7 +274,7 @@ Definition rstep (pb : nat) (s : rst) (e : revent) : option rst :=
       | PFilling, k :: t =>
           Some {| r_j := r_j s; r_synced := r_synced s; r_active := r_active s; r_size := r_size s;
                   r_alt := r_alt s; r_rip := r_rip s; r_buf := r_buf s; r_wk := r_wk s; r_ph := r_ph s;
-                  r_todo := t; r_loc := r_loc s ++ [k]; r_counted := r_counted s; r_closed := false;
+                  r_todo := t; r_loc := r_loc s ++ [k]; r_drn := r_drn s; r_counted := r_counted s; r_closed := false;
                   r_a0 := r_a0 s; r_old := r_old s; r_new := r_new s; r_acked := r_acked s;
                   r_flipped := r_flipped s |}
       | _, _ => None
@@ -281,15 +282,19 @@ Definition rstep (pb : nat) (s : rst) (e : revent) : option rst :=
   | EAltWrite c =>
       match r_ph s with
       | PFilling | PClean0 =>
-          let sel := match remove_seg c (r_loc s) with
-                     | Some l => Some (l, r_buf s)
-                     | None => match remove_seg c (r_loc s ++ r_buf s) with
-                               | Some l => Some (l, [])
-                               | None => None
-                               end
-                     end in
+          (* which keys are these?  the local batch (altPutBlind(batch), 795/806), or the
+             next chunk of the keys taken from the buffer (drainBuf); if neither, a
+             takeBuf must have happened first *)
+          let sel := if list_mhk_eqb c (r_loc s) then Some ([], r_drn s, r_buf s)
+                     else match strip_prefix c (r_drn s) with
+                          | Some d => Some (r_loc s, d, r_buf s)
+                          | None => match strip_prefix c (r_drn s ++ r_buf s) with
+                                    | Some d => Some (r_loc s, d, [])
+                                    | None => None
+                                    end
+                          end in
           match c, sel with
-          | _ :: _, Some (loc, buf) =>
+          | _ :: _, Some (loc, drn, buf) =>
               if r_counted s then
                 match put_scan seen_dedups pb (alternate s) NoFault c [] 0 with
                 | Some (b, nw) =>
@@ -297,7 +302,7 @@ Definition rstep (pb : nat) (s : rst) (e : revent) : option rst :=
                             r_active := r_active s; r_size := r_size s;
                             r_alt := r_alt s + Z.of_nat (length nw);
                             r_rip := r_rip s; r_buf := buf; r_wk := r_wk s; r_ph := r_ph s;
-                            r_todo := r_todo s; r_loc := loc; r_counted := true; r_closed := false;
+                            r_todo := r_todo s; r_loc := loc; r_drn := drn; r_counted := true; r_closed := false;
                             r_a0 := r_a0 s; r_old := r_old s; r_new := r_new s; r_acked := r_acked s;
                             r_flipped := r_flipped s |}
                 | None => None
@@ -306,7 +311,7 @@ Definition rstep (pb : nat) (s : rst) (e : revent) : option rst :=
                 Some {| r_j := gappend (r_j s) (negb (r_active s)) (blind_ops pb c); r_synced := r_synced s;
                         r_active := r_active s; r_size := r_size s; r_alt := r_alt s;
                         r_rip := r_rip s; r_buf := buf; r_wk := r_wk s; r_ph := r_ph s;
-                        r_todo := r_todo s; r_loc := loc; r_counted := false; r_closed := false;
+                        r_todo := r_todo s; r_loc := loc; r_drn := drn; r_counted := false; r_closed := false;
                         r_a0 := r_a0 s; r_old := r_old s; r_new := r_new s; r_acked := r_acked s;
                         r_flipped := r_flipped s |}
           | _, _ => None
@@ -325,7 +330,7 @@ Definition rstep (pb : nat) (s : rst) (e : revent) : option rst :=
           Some {| r_j := r_j s; r_synced := r_synced s; r_active := r_active s; r_size := r_size s;
                   r_alt := refresh_size (alternate s);
                   r_rip := r_rip s; r_buf := r_buf s; r_wk := r_wk s; r_ph := r_ph s;
-                  r_todo := r_todo s; r_loc := r_loc s; r_counted := true; r_closed := false;
+                  r_todo := r_todo s; r_loc := r_loc s; r_drn := r_drn s; r_counted := true; r_closed := false;
                   r_a0 := r_a0 s; r_old := r_old s; r_new := r_new s; r_acked := r_acked s;
                   r_flipped := r_flipped s |}
       | _ => None
@@ -338,7 +343,7 @@ Definition rstep (pb : nat) (s : rst) (e : revent) : option rst :=
   | ECleanSync =>
       match r_ph s with
       | PClean0 =>
-          if is_nil (r_loc s) && is_nil (r_buf s) && is_nil (r_todo s)
+          if is_nil (r_loc s) && is_nil (r_drn s) && is_nil (r_buf s) && is_nil (r_todo s)
           then Some (upd_ph (upd_j s (r_j s) (length (r_j s))) PClean1) else None
       | _ => None
       end
@@ -366,7 +371,7 @@ Definition rstep (pb : nat) (s : rst) (e : revent) : option rst :=
       | PTearing =>
           Some {| r_j := r_j s; r_synced := r_synced s; r_active := r_active s; r_size := r_size s;
                   r_alt := r_alt s; r_rip := false; r_buf := []; r_wk := r_wk s; r_ph := PIdle;
-                  r_todo := []; r_loc := []; r_counted := false; r_closed := false;
+                  r_todo := []; r_loc := []; r_drn := []; r_counted := false; r_closed := false;
                   r_a0 := r_active s;
                   r_old := (if r_flipped s then r_new s else r_old s) ++ r_acked s;
                   r_new := []; r_acked := []; r_flipped := false |}
